@@ -64,3 +64,14 @@ Proof.
   - intros -> ->. destruct (ignore_errors f); reflexivity.
 Qed.
 Print Assumptions optional_404_and_ignored_harmless.
+
+(* an optional release flavour that is absent (404 within the budget) is never
+   counted, whatever transient failures the server produced before the 404 *)
+Theorem optional_absent_after_transients_harmless :
+  forall f u fs v p k,
+  variants f = [v] -> vpaths v = [p] ->
+  ignore_missing f = true -> ignore_errors f = false ->
+  k < max_tries -> rbody (nth_resp (script_of u p) k) = BMissing ->
+  counted_failure (FRun (download_file f u fs)) = false.
+Proof. exact optional_absent_not_counted. Qed.
+Print Assumptions optional_absent_after_transients_harmless.
